@@ -180,6 +180,9 @@ def rule_mx5(ctx: Ctx) -> RuleResult:
     inner = outer = None
     for sub in demux.subscriptions:
         h = sub.handlers.get("on_next")
+        if h is not None and h.how == "forward" and h.target == ("obs", "down") and h.method == "on_next" and sub.source_text != "source":
+            outer = (sub, None)      # on_next=observer.on_next: every outer event is forwarded once, unchanged
+            continue
         if h is None or h.how != "fn":
             continue
         if sub.source_text == "source":
@@ -218,7 +221,7 @@ def rule_mx5(ctx: Ctx) -> RuleResult:
                 r.ob(not ems, lambda: mk_finding("MX-5", spec, kind, cfg, p,
                                                  "inner lifecycle events must be dropped by demux (the outer stream carries them); it does: %s" % summary(p)))
     spec = outer[1]
-    for kind, cfg, paths in ctx.all_paths(spec):
+    for kind, cfg, paths in (ctx.all_paths(spec) if spec is not None else ()):
         for p in paths:
             r.paths += 1
             r.groups.add((spec.qualname, kind))
